@@ -1,1 +1,45 @@
-From Ase Require Import Model.Dump.
+(* C19: access paths agree. *)
+From Ase Require Import Base.Prelude.
+From Ase Require Import Model.Render.
+From Ase Require Import Proofs.Layers.
+From Ase Require Import Proofs.RenderFrame.
+From Ase Require Import Spec.Compose.
+
+(* The model represents the three Rust routes to a cel (Frame::layer, Layer::frame,
+   AsepriteFile::cel) by the single function route_cel, whose first argument names the route:
+   each constructor performs the same two range assertions and builds the same
+   CelId { frame, layer }.  Route independence is therefore immediate in the model; that the
+   three Rust constructors behave alike is checked against the implementation by the harness. *)
+Theorem C19_routes : forall f r1 r2 fr l, route_cel f r1 fr l = route_cel f r2 fr l.
+Proof. exact route_cel_indep. Qed.
+Print Assumptions C19_routes.
+
+Theorem C19_route_ok : forall f r fr l id, route_cel f r fr l = Ok id ->
+  id = (fr, l) /\ 0 <= fr < num_frames f /\ 0 <= l < num_layers f.
+Proof. exact route_cel_ok. Qed.
+Print Assumptions C19_route_ok.
+
+(* the cels reached denote the same (frame, layer) pair, hence report identical emptiness,
+   offset, user data, tilemap flag and image *)
+Theorem C19_accessors_agree : forall f r1 r2 fr l id1 id2,
+  route_cel f r1 fr l = Ok id1 -> route_cel f r2 fr l = Ok id2 ->
+  id1 = (fr, l) /\ id2 = (fr, l) /\
+  cel_is_empty f id1 = cel_is_empty f id2 /\ cel_top_left f id1 = cel_top_left f id2 /\
+  cel_user_data f id1 = cel_user_data f id2 /\ cel_is_tilemap f id1 = cel_is_tilemap f id2 /\
+  cel_image f id1 = cel_image f id2.
+Proof. exact route_accessors_agree. Qed.
+Print Assumptions C19_accessors_agree.
+
+(* a frame in which exactly one visible layer has a cel renders exactly that cel's image
+   (equal outcomes, including the failing ones) *)
+Theorem C19_single : forall f fr l c, 0 <= fr < num_frames f -> 0 <= l ->
+  cel_at f fr l = Some c -> layer_is_visible f l = Ok true ->
+  (forall k, 0 <= k -> k <> l -> cel_at f fr k = None \/ hidden f k) ->
+  frame_image f fr = cel_image f (fr, l).
+Proof. exact frame_single. Qed.
+Print Assumptions C19_single.
+
+(* a tilemap's image equals the image of its cel *)
+Theorem C19_tilemap_image : forall f t, tilemap_image f t = cel_image f (tmv_frame t, tmv_layer t).
+Proof. exact tilemap_image_is_cel_image. Qed.
+Print Assumptions C19_tilemap_image.
